@@ -251,17 +251,24 @@ class CombinedDataHandler:
 
         non_modeled_units_list = [units_blocklisted, units_with_zero_baseline, units_with_strange_turnout_factor]
 
-        if fit_turnout_outlier_model and reporting_units.shape[0] > self.n_minimum_for_outlier_detection_model:
+        # blocklisted and zero baseline units are never modeled, so they must not decide which other units
+        # the outlier models flag either
+        already_non_modeled = pd.concat([units_blocklisted, units_with_zero_baseline]).geographic_unit_fips
+        outlier_model_units = reporting_units[
+            ~reporting_units.geographic_unit_fips.isin(already_non_modeled)
+        ].reset_index(drop=True)
+
+        if fit_turnout_outlier_model and outlier_model_units.shape[0] > self.n_minimum_for_outlier_detection_model:
             units_with_strange_turnout_factor_modeled = self._fit_outlier_detection_model(
-                reporting_units, "turnout_factor", outlier_z_threshold
+                outlier_model_units, "turnout_factor", outlier_z_threshold
             )
             units_with_strange_turnout_factor_modeled["unit_category"] = "non-modeled: strange turnout factor modeled"
             non_modeled_units_list.append(units_with_strange_turnout_factor_modeled)
 
         if "margin" in self.estimands:
-            if fit_margin_outlier_model and reporting_units.shape[0] > self.n_minimum_for_outlier_detection_model:
+            if fit_margin_outlier_model and outlier_model_units.shape[0] > self.n_minimum_for_outlier_detection_model:
                 units_with_strange_margin_change_modeled = self._fit_outlier_detection_model(
-                    reporting_units, "results_normalized_margin", outlier_z_threshold
+                    outlier_model_units, "results_normalized_margin", outlier_z_threshold
                 )
                 units_with_strange_margin_change_modeled["unit_category"] = "non-modeled: strange margin change modeled"
                 non_modeled_units_list.append(units_with_strange_margin_change_modeled)
